@@ -109,7 +109,9 @@ func (e *Enc) callCommon(fr *Frame, st *State, cc *ssa.CallCommon, fnv *Val, arg
 		// the function value itself is bound to the name `callee` in a functype contract
 		return e.applyContract(fr, st, c, append([]*Val{fnv}, args...), rt, hint, pos)
 	}
-	return e.defaultCall(fr, st, dk, args, rt, hint, pos)
+	// unknown function VALUE: a closure may have captured (and may write) anything, whatever its parameter list looks like;
+	// the function value itself therefore counts as an argument that reaches the heap (defaultCall havocs everything)
+	return e.defaultCall(fr, st, dk, append([]*Val{fnv}, args...), rt, hint, pos)
 }
 
 // callAssertSeen records that the call site named by key exists (a call-site assertion whose site has disappeared is an
